@@ -308,6 +308,32 @@ func respGuardExtra(t *tr) string {
 		t.errs = append(t.errs, "VarHeaderPostprocessor.parseModifier not found")
 	}
 
+	// the guard of the only index expression on extracted values: `if <cond> { result[k] = values[0] }`
+	if xp := rgFindMethod(p, "VarXpathPostprocessor", "Process"); xp == nil {
+		t.errs = append(t.errs, "VarXpathPostprocessor.Process not found")
+	} else {
+		var guards []string
+		ast.Inspect(xp, func(n ast.Node) bool {
+			ifs, ok := n.(*ast.IfStmt)
+			if !ok {
+				return true
+			}
+			uses := false
+			ast.Inspect(ifs.Body, func(m ast.Node) bool {
+				if ie, ok := m.(*ast.IndexExpr); ok && oneLine(nodeString(p, ie)) == "values[0]" {
+					uses = true
+				}
+				return true
+			})
+			if uses {
+				guards = append(guards, oneLine(nodeString(p, ifs.Cond)))
+			}
+			return true
+		})
+		sort.Strings(guards)
+		b.WriteString("/-- the conditions of the `if` statements whose body reads `values[0]` in `VarXpathPostprocessor.Process` -/\ndef xpathUnwrapGuards : List String := " + leanStrList(guards) + "\n\n")
+	}
+
 	// ---------------------------------------------------------------- 2. assert/response (http)
 	ap := rgFindMethod(p, "AssertResponse", "Process")
 	if ap == nil {
